@@ -36,7 +36,11 @@ IntText(v, style) == LET m == IF v < 0 THEN -v ELSE v
 RegText(n, style) == CASE style = "num" -> InBase(n, 10) [] style = "x" -> "x" \o InBase(n, 10)
                        [] style = "fp" -> (IF n = 8 THEN "fp" ELSE Alias[n + 1]) [] OTHER -> Alias[n + 1]
 
-RegStyles == {"num", "x", "alias"}
+RegStyles == {"num", "x", "alias", "mixA", "mixB"}
+\* mixed styles: every register operand of the line in a DIFFERENT spelling (by slot index), e.g. add a0, 10, x11
+StyleAt(style, i) == CASE style = "mixA" -> <<"x", "alias", "num">>[(i % 3) + 1]
+                       [] style = "mixB" -> <<"alias", "num", "x">>[(i % 3) + 1]
+                       [] OTHER -> style
 IntStyles == {"dec", "hex", "bin"}
 Seps == {" ", ",", ", ", " , ", "\t"}
 Indents == {"", "  ", "\t"}
@@ -53,11 +57,11 @@ RenderSlots(line, i, c) ==
   IF i > Len(line) THEN <<>>
   ELSE LET sl == line[i]
            sep == IF i = 2 THEN c.first ELSE c.sep[((i - 3) % Len(c.sep)) + 1]
-           body == CASE sl.k = "reg" -> <<RegText(sl.v, c.rs)>>
+           body == CASE sl.k = "reg" -> <<RegText(sl.v, StyleAt(c.rs, i))>>
                      [] sl.k = "int" -> <<IntText(sl.v, c.is)>>
                      [] sl.k \in {"off", "offs"} ->
-                          IF c.paren THEN <<IntText(sl.v, c.is), "(", RegText(sl.r, c.rs), ")">>
-                          ELSE <<RegText(sl.r, c.rs), sep, IntText(sl.v, c.is)>>
+                          IF c.paren THEN <<IntText(sl.v, c.is), "(", RegText(sl.r, StyleAt(c.rs, i + 1)), ")">>
+                          ELSE <<RegText(sl.r, StyleAt(c.rs, i + 1)), sep, IntText(sl.v, c.is)>>
                      [] OTHER -> <<sl.s>>
        IN <<sep>> \o body \o RenderSlots(line, i + 1, c)
 
